@@ -209,8 +209,13 @@ class FakeS3:
     def register_source(self, name, data):
         self.sources[name] = data
 
-    def _locate(self, body):
-        for name, src in self.sources.items():
+    def _locate(self, body, prefer=None):
+        names = list(self.sources)
+        if prefer in self.sources:
+            names.remove(prefer)
+            names.insert(0, prefer)
+        for name in names:
+            src = self.sources[name]
             loc = locate(src, body)
             if loc is not None:
                 return {'src': name, 'start': loc[0], 'len': loc[1]}
@@ -383,7 +388,7 @@ class FakeS3:
 
     def _op_PutObject(self, request, p, call):
         data = self._read_body(request)
-        loc = self._locate(data)
+        loc = self._locate(data, p['Key'])
         self.objects[(p['Bucket'], p['Key'])] = data
         self.object_meta[(p['Bucket'], p['Key'])] = {'via': 'put', 'seq': call['seq']}
         h = {'ETag': f'"put-{call["seq"]}"'}
@@ -436,7 +441,7 @@ class FakeS3:
         # the body is consumed even if the upload is gone, as a real
         # connection would
         data = self._read_body(request)
-        loc = self._locate(data)
+        loc = self._locate(data, p['Key'])
         m = self._mpu(p)
         n = p['PartNumber']
         etag = f'"p{n}-{call["seq"]}"'
